@@ -71,4 +71,10 @@ let () = iter_lines (fun line ->
   | [ "icc"; n ] -> Printf.printf "icc %d\n" (int_of_z (icc_bytes (z_of_int (int_of_string n))))
   | [ "bufsize"; w; h; s ] ->
       Printf.printf "bufsize %d\n" (int_of_z (tj3JPEGBufSize (z_of_int (int_of_string w)) (z_of_int (int_of_string h)) (z_of_int (int_of_string s))))
+  | "blk" :: px ->
+      let px = zl (List.map int_of_string px) in
+      let cs = il (block_coefs px) in
+      (match scan_size [px] with
+       | Some (bytes, _) -> Printf.printf "blk %s | %d\n" (pr_ints cs) (int_of_z bytes)
+       | None -> print_endline "blk nocode")
   | _ -> print_endline "?")
